@@ -14,6 +14,7 @@ R20.6 derived state stays coherent: when an attribute of Columns is computed fro
 R20.7 text read from a delimited file is data: no function on the read path (load_table -> load_delimited -> cast_str_to_array / cast_str_to_numeric) ...
 R20.8 list-of-rows semantics of filtering and sorting: (i) the row predicate is used through its truth value (bool(...), `if cb(row)`), never compared with ...
 R20.9 join keys: the two key-column lists of inner_join are compared position by position, so in the natural-join branch (no columns given) both lists come ...
+R20.10 cross_join never unpacks zip(*pairs): zero row pairs give nothing to unpack.
 """
 
 from __future__ import annotations
